@@ -50,7 +50,7 @@ FILES = {
 }
 EMIT = ["IncrementalPFI", "IncrementalSage"]
 
-LEAN_TY = {"Str": "String", "ListInst": "List (Inst V)", "ListY": "List Y",
+LEAN_TY = {"DictTr": "Dict (Tr K)", "Str": "String", "ListInst": "List (Inst V)", "ListY": "List Y",
            "DictV": "Dict V", "Out": "O", "ListOut": "List O",
            "K": "K", "Nat": "Nat", "Bool": "Bool", "DictK": "Dict K", "ListDictK": "List (Dict K)", "ListK": "List K",
            "ListNat": "List Nat", "MV": "MV K", "Tr": "Tr K", "Inst": "Inst V", "Y": "Y", "Unit": "Unit"}
@@ -104,6 +104,7 @@ class Var:
 
 class Fn:
     """one translated method"""
+    supports_helpers = True
 
     def __init__(self, src, cname, fn, rel):
         self.src, self.cname, self.fn, self.rel = src, cname, fn, rel
@@ -240,11 +241,20 @@ class Fn:
                     self.err(e, "branches of different types")
                 return f"(match {ov} with | some {nm} => {sv} | none => {nv})", self.unify(st, nt, e), False
             c, ct, _ = self.expr(e.test, allow_eff=False)
-            a, at, _ = self.expr(e.body, allow_eff=False)
-            b, bt, _ = self.expr(e.orelse, allow_eff=False)
+            a, at, ea = self.expr(e.body, allow_eff)
+            b, bt, eb = self.expr(e.orelse, allow_eff)
             ty = self.unify(at, bt, e)
             if ct != "Bool" or ty is None:
                 self.err(e, "unsupported conditional expression")
+            if ea or eb:
+                # only the chosen branch may run its effects: both branches must be single monadic actions
+                def action(x, eff):
+                    if not eff:
+                        return f"(pure {x})"
+                    if x.startswith("(← ") and x.endswith(")") and x.count("←") == 1:
+                        return "(" + x[3:-1] + ")"
+                    self.err(e, "conditional expression whose branch mixes effects with other computation")
+                return f"(← if {c} then {action(a, ea)} else {action(b, eb)})", ty, True
             return f"(if {c} then {a} else {b})", ty, False
         self.err(e, "unsupported expression")
 
@@ -424,7 +434,9 @@ class Fn:
                 return f"({v}.get)", "K", eff
             self.err(e, f"{f.attr}() of unsupported value")
         if isinstance(f, ast.Attribute) and isinstance(f.value, ast.Name) and f.value.id in ("self", self.cname) \
-                and type(self) is Fn and self.src.find_method(self.cname, f.attr)[0] is not None:
+                and self.supports_helpers and self.src.find_method(self.cname, f.attr)[0] is not None:
+            return self.helper_call(e, allow_eff)
+        if isinstance(f, ast.Name) and self.supports_helpers and self.module_function(f.id) is not None:
             return self.helper_call(e, allow_eff)
         self.err(e, "unsupported call")
 
@@ -435,8 +447,13 @@ class Fn:
             self.err(e, "helper call inside a pure context")
         if getattr(self, "depth", 0) > 3:
             self.err(e, "helpers nested too deeply")
-        name = e.func.attr
-        fn, rel, owner = self.src.find_method(self.cname, name)
+        name = e.func.attr if isinstance(e.func, ast.Attribute) else e.func.id
+        if isinstance(e.func, ast.Attribute):
+            fn, rel, owner = self.src.find_method(self.cname, name)
+        else:
+            fn, rel = self.module_function(name), self.rel
+        if fn is None:
+            self.err(e, "unsupported call")
         if any(isinstance(d, ast.Name) and d.id == "property" for d in fn.decorator_list) or name == "explain_one":
             self.err(e, "unsupported call")
         skip = 1 if fn.args.args and fn.args.args[0].arg in ("self", "cls") else 0
@@ -451,14 +468,17 @@ class Fn:
             v, t, _ = self.expr(node)
             t = norm(t)
             vals.append((pn, v, "Nat" if t == "IntLit" else t))
-        sub = Fn(self.src, self.cname, fn, rel)
+        sub = type(self)(self.src, self.cname, fn, rel)
         sub.helper_mode, sub.ret_type, sub.depth = True, None, getattr(self, "depth", 0) + 1
+        sub.is_helper = True
         sub.helpers = self.helpers
         sub.deferred_types = []
         pre = []
         for pn, _, t in vals:
             if isinstance(t, tuple) and t[0] == "Opt" and isinstance(t[1], Hole):
                 self.err(e, f"argument {pn} of helper {name} is a bare None")
+            if t == "V":
+                self.err(e, f"argument {pn} of helper {name} is a bare feature value")
             if sub.stores.get(pn, 0) > 0:
                 sub.env[pn] = Var(pn, t, mut=True)
                 pre.append(f"let mut {pn} := {pn}")
@@ -474,10 +494,25 @@ class Fn:
         key = (name, tuple(t if isinstance(t, str) else repr(t) for _, _, t in vals))
         variants = [k for k in self.helpers if k[0] == name and k != key]
         lname = f"{self.cname}.{name}" + (f"_{len(variants) + 1}" if variants else "")
-        sig = " ".join(f"({pn} : {lean_ty(t)})" for pn, _, t in vals)
+        sig = " ".join(self.helper_param(pn, t) for pn, _, t in vals)
         self.helpers[key] = (lname, sub.uses_perm, sig, ret, text)
-        fixed = "O feature_names cfg_n_inner_samples " + ("permutation " if sub.uses_perm else "") + "imputeM"
-        return f"(← {lname} {fixed} {' '.join(v for _, v, _ in vals)})", ret, True
+        if getattr(sub, "uses_draws", False):
+            self.uses_draws = True
+        fixed = self.helper_fixed_args(sub)
+        return f"(← {lname} {fixed} {' '.join(self.helper_arg(node_, v, t) for (pn, v, t), node_ in zip(vals, [got.get(pn, dflt.get(pn)) for pn in params]))})", ret, True
+
+    # hooks for the profiles
+    def helper_param(self, pn, t):
+        return f"({pn} : {lean_ty(t)})"
+
+    def helper_arg(self, node, v, t):
+        return v
+
+    def helper_fixed_args(self, sub):
+        return "O feature_names cfg_n_inner_samples " + ("permutation " if sub.uses_perm else "") + "imputeM"
+
+    def module_function(self, name):
+        return None
 
     def listcomp(self, e, allow_eff):
         if len(e.generators) != 1 or e.generators[0].ifs or not isinstance(e.generators[0].target, ast.Name):
@@ -779,7 +814,7 @@ class Fn:
             if var is not None and var.kind == "val" and norm(var.ty) == "ListNat" and var.mut:
                 k, kt, _ = self.expr(call.args[0])
                 return [f"{var.lean} := {var.lean}.erase {self.asNat(k, kt, node)}"]
-        if isinstance(f, ast.Attribute) and isinstance(f.value, ast.Name) and f.value.id in ("self", self.cname) and type(self) is Fn \
+        if isinstance(f, ast.Attribute) and isinstance(f.value, ast.Name) and f.value.id in ("self", self.cname) and self.supports_helpers \
                 and self.src.find_method(self.cname, f.attr)[0] is not None:
             v, t, _ = self.helper_call(call, True)
             return [f"let _ := {v}"]
@@ -960,6 +995,16 @@ class ImpFn(Fn):
         super().__init__(src, cname, fn, rel)
         self.uses_draws = False
 
+    def helper_param(self, pn, t):
+        return f"({pn} : Nat → Inst V) ({pn}_len : Nat)" if t == "Rows" else f"({pn} : {lean_ty(t)})"
+
+    def helper_arg(self, node, v, t):
+        return f"{v} {self.rows(node)[1]}" if t == "Rows" else v
+
+    def helper_fixed_args(self, sub):
+        # the samplers are static methods: only the draw source is in scope everywhere
+        return "idxs" if self.cname == "MarginalImputer" else "model values"
+
     def rows(self, e):
         """(function, length) of an expression of type Rows"""
         if isinstance(e, ast.Name) and e.id in self.env and norm(self.env[e.id].ty) == "Rows":
@@ -1035,7 +1080,7 @@ class ImpFn(Fn):
             if norm(t) == "Rows":
                 return v, ("Tup", ["Rows", "Unit"]), eff
         if isinstance(f, ast.Attribute) and isinstance(f.value, ast.Name) and f.value.id in ("self", self.cname) \
-                and f.attr in IMP_EMIT.get(self.cname, []):
+                and f.attr in IMP_EMIT.get(self.cname, []) and not getattr(self, "is_helper", False):
             if not allow_eff:
                 self.err(e, "helper call inside a pure context")
             h, hrel, _ = self.src.find_method(self.cname, f.attr)
@@ -1135,6 +1180,12 @@ class ImpFn(Fn):
         if isinstance(s, ast.Return) and s.value is not None:
             def build():
                 v, t, eff = self.expr(s.value)
+                if getattr(self, "is_helper", False):
+                    t = norm(t)
+                    if getattr(self, "ret_type", None) not in (None, t):
+                        self.err(s, "helper returns values of different types")
+                    self.ret_type = t
+                    return [f"return {v}"]
                 want = IMP_RETURNS[self.fn.name]
                 if norm(t) != want:
                     self.err(s, f"{self.fn.name} returns a value of type {norm(t)}, expected {want}")
@@ -1178,12 +1229,24 @@ variable {{V O : Type}}
 
 def translate_imputer(src, cname):
     out = []
+    shared = {}
+    emitted = set()
     for m in IMP_EMIT[cname]:
         fn, rel, owner = src.find_method(cname, m)
         if fn is None:
             raise Unsupported(f"{IMP_FILES[cname]}: {cname}.{m} not found")
         f = ImpFn(src, cname, fn, rel)
+        f.helpers = shared
         sig, body = f.translate()
+        for key, (lname, _, hsig, hret, htext) in shared.items():
+            if key in emitted:
+                continue
+            emitted.add(key)
+            if cname == "MarginalImputer":
+                hfixed = "(idxs : Nat → Nat → Nat)"
+                out.append(f"def {lname} {hfixed} {hsig} : StateM Nat ({lean_ty(hret)}) := do\n{htext}\n")
+            else:
+                out.append(f"def {lname} (model : Inst V → O) (values : Inst V) {hsig} : {lean_ty(hret)} := Id.run do\n{htext}\n")
         ret = lean_ty(IMP_RETURNS[m])
         fixed = []
         if cname == "MarginalImputer":
@@ -1217,6 +1280,11 @@ BATCH_PARAMS = {"x_data": "ListInst", "y_data": "ListY", "n_inner_samples": ("Op
 
 
 class BatchFn(Fn):
+    supports_helpers = True
+
+    def helper_fixed_args(self, sub):
+        self.uses_perm = True
+        return "O feature_names cfg_n_inner_samples permutation imputeMx"
     def self_attr(self, e):
         if e.attr == "importance_values":
             if "self.importance_values" not in self.env:
@@ -1319,6 +1387,19 @@ class BatchFn(Fn):
             self.in_loop -= 1
             self.env = dict(saved)
             return [f"for (({xvar}, {yvar}), {nvar}) in ((List.zip {a} {b}).zipIdx {start}) do"] + ["  " + x for x in body]
+        if isinstance(it, ast.Call) and isinstance(it.func, ast.Attribute) and it.func.attr == "items" and not it.args \
+                and isinstance(s.target, ast.Tuple) and len(s.target.elts) == 2 and all(isinstance(x, ast.Name) for x in s.target.elts) \
+                and not s.orelse:
+            d, dt, _ = self.expr(it.func.value, allow_eff=False)
+            if norm(dt) == "DictK":
+                kvar, vvar = s.target.elts[0].id, s.target.elts[1].id
+                saved = dict(self.env)
+                self.env[kvar], self.env[vvar] = Var(kvar, "Nat"), Var(vvar, "K")
+                self.in_loop += 1
+                body = self.block(s.body)
+                self.in_loop -= 1
+                self.env = dict(saved)
+                return [f"for ({kvar}, {vvar}) in {d} do"] + ["  " + x for x in body]
         return super().for_stmt(s, scope)
 
     def translate(self):
@@ -1349,7 +1430,12 @@ def translate_batch(src):
         raise Unsupported(f"{BATCH_FILES[cname]}: BatchSage.explain_many not found")
     f = BatchFn(src, cname, fn, rel)
     body = f.translate()
-    sig = ("def BatchSage.explain_many (O : Oracles K V Y) (feature_names : List Nat) (cfg_n_inner_samples : Nat)\n"
+    hdefs = ""
+    for (lname, _, hsig, hret, htext) in f.helpers.values():
+        hdefs += ("def " + lname + " (O : Oracles K V Y) (feature_names : List Nat) (cfg_n_inner_samples : Nat)\n"
+                  "    (permutation : Nat → Nat → List Nat) (imputeMx : Inst V → List Nat → Nat → M K (List (Dict K))) " + hsig +
+                  f" : M K ({lean_ty(hret)}) := do\n{htext}\n\n")
+    sig = hdefs + ("def BatchSage.explain_many (O : Oracles K V Y) (feature_names : List Nat) (cfg_n_inner_samples : Nat)\n"
            "    (permutation : Nat → Nat → List Nat) (imputeMx : Inst V → List Nat → Nat → M K (List (Dict K)))\n"
            "    (x_data : List (Inst V)) (y_data : List Y) (n_inner_samples : Option Nat) (verbose : Bool) : M K (Dict K) := do\n")
     sha = src.sha[cname]
@@ -1363,6 +1449,7 @@ def translate_batch(src):
 # numbers -> maxL / minL / lsum ; `mode == 'delta'` -> decide (mode = "delta") with `mode : String` ; x == 0 on numbers -> decide (x = 0)
 # ----------------------------------------------------------------------------------------------------------------
 class NormFn(BatchFn):
+    supports_helpers = True
     def expr(self, e, allow_eff=True):
         if isinstance(e, ast.Constant) and isinstance(e.value, str):
             return '"' + e.value.replace('\\', '\\\\').replace('"', '\\"') + '"', "Str", False
@@ -1398,6 +1485,12 @@ class NormFn(BatchFn):
     def self_attr(self, e):
         self.err(e, "a static function does not read the explainer")
 
+    def module_function(self, name):
+        return getattr(self.src, "module_functions", {}).get(name)
+
+    def helper_fixed_args(self, sub):
+        return ""
+
     def stmt(self, s, scope):
         if isinstance(s, ast.Raise):
             exc = s.exc.func if isinstance(s.exc, ast.Call) else s.exc
@@ -1430,7 +1523,10 @@ def translate_normalize(src_repo):
     class S_:
         pass
     src = S_()
-    src.find_method = lambda c, m: (None, None, None)
+    src.module_functions = {n.name: n for n in tree.body if isinstance(n, ast.FunctionDef)}
+    statics = {n.name: n for n in cls[0].body if isinstance(n, ast.FunctionDef) and n.name != "_normalize_importance_values"
+               and any(isinstance(d, ast.Name) and d.id == "staticmethod" for d in n.decorator_list)}
+    src.find_method = lambda c, m: ((statics[m], rel, c) if m in statics else (None, None, None))
     src.find_property = lambda c, m: None
     f = NormFn(src, "BaseIncrementalFeatureImportance", fn, rel)
     f.helper_mode, f.ret_type = True, None
@@ -1448,8 +1544,218 @@ def translate_normalize(src_repo):
             "  `_normalize_importance_values` statement by statement; a `raise` is a `throw` in `Except String`.\n-/\n"
             "import IxaiVerif.Model.Explainer\n\nnamespace Ixai.Gen\nopen Ixai\n\n"
             "variable {K : Type} [Add K] [Sub K] [Mul K] [Div K] [NatCast K] [OfNat K 0] [OfNat K 1] [RealOps K] [DecidableEq K] [LE K] [DecidableLE K]\n\n"
-            "def normalize_importance_values (importance_values : Dict K) (mode : String) : Except String (Dict K) := do\n")
-    return head + btxt + "\n\nend Ixai.Gen\n", [rel], sha
+            )
+    hdefs = ""
+    for (lname, _, hsig, hret, htext) in f.helpers.values():
+        hdefs += f"def {lname.replace('BaseIncrementalFeatureImportance.', 'normalize_helper_')} {hsig} : Except String ({lean_ty(hret)}) := do\n{htext}\n\n"
+    main = "def normalize_importance_values (importance_values : Dict K) (mode : String) : Except String (Dict K) := do\n"
+    btxt = btxt.replace("BaseIncrementalFeatureImportance.", "normalize_helper_")
+    hdefs = hdefs.replace("(← BaseIncrementalFeatureImportance.", "(← normalize_helper_")
+    return head + hdefs + main + btxt + "\n\nend Ixai.Gen\n", [rel], sha
+
+
+# ----------------------------------------------------------------------------------------------------------------
+# MultiValueTracker (ixai/utils/tracker/multi_value.py): methods over an explicit state record
+#   structure MVGen K := (tracked_value : Dict (Tr K)) (tracked_keys : List Nat) (base_tracker : Tr K) (N : Nat)
+# `self.f = e` -> self := {self with f := e}.  Vocabulary:
+#   set(values.keys()) -> values.keys (a `for` over a set visits the elements in the order of the list it was built from)
+#   try: self.tracked_value[k].update(v)  except KeyError: <body>   ->   match find? k with | some t => set k (t.update v) | none => <body>
+#   self.tracked_value[k] = copy.deepcopy(self._base_tracker) -> Dict.set .. k base ; self.tracked_value[k].update(v) -> set k ((getD k base).update v)
+#   self._tracked_keys.add(k) -> keys ++ [k] unless present ; A - B on key sets -> A.filter (· ∉ B) ; self.get() / self() -> __call__
+#   len(self._tracked_keys) ; sum(d.values()) -> lsum (d.map Prod.snd) ; {k: e for k in keys} / {k: e for k, v in d.items()} / d.keys()
+# ----------------------------------------------------------------------------------------------------------------
+MV_FILE = "ixai/utils/tracker/multi_value.py"
+MV_FIELDS = {"tracked_value": "DictTr", "_tracked_keys": "ListNat", "_base_tracker": "Tr", "N": "Nat"}
+MV_LEAN_FIELD = {"tracked_value": "tracked_value", "_tracked_keys": "tracked_keys", "_base_tracker": "base_tracker", "N": "N"}
+MV_METHODS = {"update": (["values"], None), "__call__": ([], "DictK"), "get_normalized": ([], "DictK")}
+
+
+class MVFn(NormFn):
+    supports_helpers = False
+    def self_attr(self, e):
+        if e.attr in MV_FIELDS:
+            return f"self.{MV_LEAN_FIELD[e.attr]}", MV_FIELDS[e.attr], False
+        self.err(e, "unknown attribute of the tracker")
+
+    def expr(self, e, allow_eff=True):
+        if isinstance(e, ast.Attribute) and isinstance(e.value, ast.Name) and e.value.id == "self":
+            return self.self_attr(e)
+        if isinstance(e, ast.Subscript):
+            base, bt, _ = self.expr(e.value, allow_eff)
+            if norm(bt) == "DictTr":
+                k, kt, _ = self.expr(e.slice, allow_eff)
+                return f"(({base}).getD {self.asNat(k, kt, e)} self.base_tracker)", "Tr", False
+        if isinstance(e, ast.BinOp) and isinstance(e.op, ast.Sub):
+            a, at, _ = self.expr(e.left, allow_eff)
+            b, bt, _ = self.expr(e.right, allow_eff)
+            if norm(at) == "ListNat" and norm(bt) == "ListNat":
+                return f"({a}.filter (fun k_ => !({b}).contains k_))", "ListNat", False
+        if isinstance(e, ast.Constant) and isinstance(e.value, float) and e.value == int(e.value):
+            return str(int(e.value)), "IntLit", False
+        return super().expr(e, allow_eff)
+
+    def call(self, e, allow_eff):
+        f = e.func
+        name = ast.unparse(f)
+        if name in ("self.get", "self", "self.__call__") and not e.args:
+            return "(MultiValueTracker.__call__ self)", "DictK", False
+        if name == "set" and len(e.args) == 1 and isinstance(e.args[0], ast.Call) and isinstance(e.args[0].func, ast.Attribute) \
+                and e.args[0].func.attr == "keys" and not e.args[0].args:
+            d, dt, _ = self.expr(e.args[0].func.value, allow_eff)
+            if norm(dt) in ("DictK", "DictTr"):
+                return f"({d}).keys", "ListNat", False
+        if isinstance(f, ast.Attribute) and f.attr == "keys" and not e.args:
+            d, dt, _ = self.expr(f.value, allow_eff)
+            if norm(dt) in ("DictK", "DictTr"):
+                return f"({d}).keys", "ListNat", False
+        if name == "len" and len(e.args) == 1:
+            v, t, _ = self.expr(e.args[0], allow_eff)
+            if norm(t) in ("ListNat", "DictK", "DictTr"):
+                return f"({v}).length", "Nat", False
+        if name == "sum" and len(e.args) == 1 and isinstance(e.args[0], ast.Call) and isinstance(e.args[0].func, ast.Attribute) \
+                and e.args[0].func.attr == "values" and not e.args[0].args:
+            d, dt, _ = self.expr(e.args[0].func.value, allow_eff)
+            if norm(dt) == "DictK":
+                return f"(lsum (({d}).map Prod.snd))", "K", False
+        if name in ("copy.deepcopy", "copy.copy") and len(e.args) == 1:
+            return self.expr(e.args[0], allow_eff)
+        if isinstance(f, ast.Attribute) and f.attr == "get" and not e.args:
+            v, t, _ = self.expr(f.value, allow_eff)
+            if norm(t) == "Tr":
+                return f"({v}).get", "K", False
+        return super().call(e, allow_eff)
+
+    def compare(self, e, allow_eff):
+        if len(e.ops) == 1 and isinstance(e.ops[0], (ast.LtE, ast.Lt, ast.GtE, ast.Gt)):
+            a, at, _ = self.expr(e.left, allow_eff)
+            b, bt, _ = self.expr(e.comparators[0], allow_eff)
+            if norm(at) in ("Nat", "IntLit") and norm(bt) in ("Nat", "IntLit"):
+                sym = {ast.Lt: "<", ast.LtE: "≤", ast.Gt: ">", ast.GtE: "≥"}[type(e.ops[0])]
+                return f"decide ({a} {sym} {b})", "Bool", False
+        return super().compare(e, allow_eff)
+
+    def dictcomp(self, e):
+        g = e.generators[0] if len(e.generators) == 1 else None
+        if g is not None and not g.ifs and isinstance(g.target, ast.Name):
+            it, itt, _ = self.expr(g.iter, allow_eff=False)
+            if norm(itt) == "ListNat":
+                saved = dict(self.env)
+                self.env[g.target.id] = Var(g.target.id, "Nat")
+                k, kt, _ = self.expr(e.key, allow_eff=False)
+                v, vt, _ = self.expr(e.value, allow_eff=False)
+                self.env = saved
+                return f"(Dict.ofPairs ({it}.map (fun {g.target.id} => ({self.asNat(k, kt, e)}, {self.asK(v, vt, e)}))))", "DictK", False
+        return super().dictcomp(e)
+
+    def set_field(self, attr, value):
+        return [f"self := {{ self with {MV_LEAN_FIELD[attr]} := {value} }}"]
+
+    def assign(self, target, value, node, scope):
+        if isinstance(target, ast.Attribute) and isinstance(target.value, ast.Name) and target.value.id == "self" and target.attr in MV_FIELDS:
+            v, t, _ = self.expr(value)
+            want = MV_FIELDS[target.attr]
+            if norm(t) != want and not (want == "Nat" and norm(t) == "IntLit"):
+                self.err(node, f"field {target.attr} : {want} is assigned a value of type {norm(t)}")
+            return self.set_field(target.attr, v)
+        if isinstance(target, ast.Subscript) and isinstance(target.value, ast.Attribute) and isinstance(target.value.value, ast.Name) \
+                and target.value.value.id == "self" and target.value.attr == "tracked_value":
+            k, kt, _ = self.expr(target.slice)
+            v, t, _ = self.expr(value)
+            if norm(t) != "Tr":
+                self.err(node, "a tracker is expected")
+            return self.set_field("tracked_value", f"Dict.set self.tracked_value {self.asNat(k, kt, node)} {v}")
+        return super().assign(target, value, node, scope)
+
+    def tracker_update(self, call):
+        """`self.tracked_value[k].update(v)` -> (k, v) as Lean terms, or None"""
+        f = call.func
+        if isinstance(f, ast.Attribute) and f.attr == "update" and len(call.args) == 1 and isinstance(f.value, ast.Subscript) \
+                and ast.unparse(f.value.value) == "self.tracked_value":
+            k, kt, _ = self.expr(f.value.slice)
+            v, vt, _ = self.expr(call.args[0])
+            return self.asNat(k, kt, call), self.asK(v, vt, call)
+        return None
+
+    def call_stmt(self, call, node, scope):
+        ku = self.tracker_update(call)
+        if ku is not None:
+            k, v = ku
+            return self.set_field("tracked_value", f"Dict.set self.tracked_value {k} ((self.tracked_value.getD {k} self.base_tracker).update {v})")
+        f = call.func
+        if isinstance(f, ast.Attribute) and f.attr == "add" and len(call.args) == 1 and ast.unparse(f.value) == "self._tracked_keys":
+            k, kt, _ = self.expr(call.args[0])
+            k = self.asNat(k, kt, node)
+            return self.set_field("_tracked_keys", f"(if self.tracked_keys.contains {k} then self.tracked_keys else self.tracked_keys ++ [{k}])")
+        return super().call_stmt(call, node, scope)
+
+    def stmt(self, s, scope):
+        if isinstance(s, ast.Try):
+            # try: self.tracked_value[k].update(v)   except KeyError: <body>
+            if len(s.body) == 1 and isinstance(s.body[0], ast.Expr) and isinstance(s.body[0].value, ast.Call) and len(s.handlers) == 1 \
+                    and s.handlers[0].type is not None and ast.unparse(s.handlers[0].type) == "KeyError" and s.handlers[0].name is None \
+                    and not s.orelse and not s.finalbody:
+                ku = self.tracker_update(s.body[0].value)
+                if ku is not None:
+                    k, v = ku
+                    tn = self.fresh("t")
+                    lines = [f"match self.tracked_value.find? {k} with", f"| some {tn} =>",
+                             f"  self := {{ self with tracked_value := Dict.set self.tracked_value {k} ({tn}.update {v}) }}", "| none =>"]
+                    lines += ["  " + x for x in self.block(s.handlers[0].body)]
+                    return lines
+            self.err(s, "unsupported try statement")
+        if isinstance(s, ast.AugAssign) and isinstance(s.target, ast.Attribute) and ast.unparse(s.target) == "self.N" \
+                and isinstance(s.op, ast.Add):
+            v, t, _ = self.expr(s.value)
+            return self.set_field("N", f"(self.N + {self.asNat(v, t, s)})")
+        if isinstance(s, ast.Return) and isinstance(s.value, ast.Name) and s.value.id == "self":
+            return ["return self"]
+        return super().stmt(s, scope)
+
+
+def translate_mv(repo):
+    text = open(os.path.join(repo, MV_FILE)).read()
+    tree = ast.parse(text, filename=MV_FILE)
+    cls = [n for n in tree.body if isinstance(n, ast.ClassDef) and n.name == "MultiValueTracker"]
+    if len(cls) != 1:
+        raise Unsupported(f"{MV_FILE}: class MultiValueTracker not found")
+    methods = {n.name: n for n in cls[0].body if isinstance(n, ast.FunctionDef)}
+
+    class S_:
+        pass
+    src = S_()
+    src.find_method = lambda c, m: (None, None, None)
+    src.find_property = lambda c, m: None
+    out = []
+    for m in ("__call__", "get_normalized", "update"):
+        if m not in methods:
+            raise Unsupported(f"{MV_FILE}: MultiValueTracker.{m} not found")
+        fn = methods[m]
+        params, ret = MV_METHODS[m]
+        got = [a.arg for a in fn.args.args[1:]]
+        if got != params:
+            raise Unsupported(f"{MV_FILE}:{fn.lineno}: signature of {m} is {got}, expected {params}")
+        f = MVFn(src, "MultiValueTracker", fn, MV_FILE)
+        f.helper_mode, f.ret_type, f.deferred_types = True, None, []
+        for p_ in params:
+            f.env[p_] = Var(p_, "DictK")
+        body = f.block(fn.body, f.new_scope())
+        btxt = "\n".join("  " + x for x in body)
+        for ph, ty in f.deferred_types:
+            btxt = btxt.replace(ph, lean_ty(ty))
+        if ret is None:
+            out.append(f"def MultiValueTracker.{m} (self : MVGen K) (values : Dict K) : MVGen K := Id.run do\n  let mut self := self\n{btxt}\n")
+        else:
+            if f.ret_type != ret:
+                raise Unsupported(f"{MV_FILE}:{fn.lineno}: {m} returns {f.ret_type}")
+            out.append(f"def MultiValueTracker.{m} (self : MVGen K) : Dict K := Id.run do\n{btxt}\n")
+    sha = hashlib.sha256(text.encode()).hexdigest()[:16]
+    head = (f"/-\n  GENERATED by tools/py2lean_eff.py from {MV_FILE} — do not edit.\n  sha256: {sha}\n"
+            "  `MultiValueTracker` statement by statement over an explicit state record.\n-/\n"
+            "import IxaiVerif.Model.Tr\n\nnamespace Ixai.Gen\nopen Ixai\n\n"
+            "variable {K : Type} [Add K] [Sub K] [Mul K] [Div K] [NatCast K] [OfNat K 0] [OfNat K 1] [RealOps K] [DecidableEq K]\n\n"
+            "/-- the attributes of a MultiValueTracker: `tracked_value`, `_tracked_keys`, `_base_tracker`, `N` -/\n"
+            "structure MVGen (K : Type) where\n  tracked_value : Dict (Tr K)\n  tracked_keys : List Nat\n  base_tracker : Tr K\n  N : Nat\n\n")
+    return head + "\n".join(out) + "\nend Ixai.Gen\n", [MV_FILE], sha
 
 
 class Source:
@@ -1563,6 +1869,16 @@ def generate(repo=None, outdir=None):
         report["BatchSage"] = {"sources": rels, "sha256": sha, "changed": old != text}
     except (Unsupported, SyntaxError, OSError) as ex:
         report["BatchSage"] = {"sources": [BATCH_FILES["BatchSage"]], "sha256": "", "changed": False, "error": str(ex)}
+    try:
+        text, rels, sha = translate_mv(repo)
+        path = os.path.join(outdir, "MultiValueTracker.lean")
+        old = open(path).read() if os.path.exists(path) else None
+        if old != text:
+            with open(path, "w") as fh:
+                fh.write(text)
+        report["MultiValueTracker"] = {"sources": rels, "sha256": sha, "changed": old != text}
+    except (Unsupported, SyntaxError, OSError, IndexError, KeyError) as ex:
+        report["MultiValueTracker"] = {"sources": [MV_FILE], "sha256": "", "changed": False, "error": str(ex)}
     try:
         text, rels, sha = translate_normalize(repo)
         path = os.path.join(outdir, "NormalizeImportance.lean")
